@@ -187,8 +187,8 @@ class Feeder:
                 self.feed(leaf, depth + 1)
         elif hasattr(o, "buffers") and hasattr(o, "selected_task"):
             self.b("MT", len(o.buffers), int(o.selected_task))
-            self.feed([int(i) for i in o.active_buffers], depth + 1)  # ints: order is process-independent
-            self.feed(int(getattr(o, "sampled_task_idx", -1)))
+            self.feed(o.active_buffers, depth + 1)  # a set: fed in sorted order
+            self.feed(getattr(o, "sampled_task_idx", -1), depth + 1)
             for buf in o.buffers:
                 self.feed(buf, depth + 1)
         elif hasattr(o, "buffer") and hasattr(o, "current_len"):
